@@ -80,6 +80,12 @@ impl<T: HasData> HasData for std::sync::Arc<T> {
         (**self).data()
     }
 }
+impl<T: HasData + Send + Sync + 'static> HasData for assets_manager::OnceInitCell<Option<T>, Value> {
+    fn data(&self) -> Value {
+        // the value of the cell is computed once from its seed (the loaded asset)
+        self.get_or_init(|seed| seed.as_ref().map(|t| t.data()).unwrap_or(Value::Null)).clone()
+    }
+}
 impl<T> HasData for Directory<T> {
     fn data(&self) -> Value {
         // Directory ids are specified sorted and duplicate-free: report them as stored
@@ -179,6 +185,8 @@ macro_rules! with_compound {
             "RL1" => { type $T = RecursiveDirectory<Leaf<1>>; $body }
             "AL0" => { type $T = std::sync::Arc<Leaf<0>>; $body }
             "AL2" => { type $T = std::sync::Arc<Leaf<2>>; $body }
+            "OL0" => { type $T = assets_manager::OnceInitCell<Option<Leaf<0>>, serde_json::Value>; $body }
+            "OL2" => { type $T = assets_manager::OnceInitCell<Option<Leaf<2>>, serde_json::Value>; $body }
             _ => $else,
         }
     }};
@@ -217,9 +225,9 @@ macro_rules! with_storable {
 }
 
 pub fn type_name_of(ty: std::any::TypeId) -> Option<&'static str> {
-    const NAMES: [&str; 22] = [
+    const NAMES: [&str; 24] = [
         "L0", "L1", "L2", "L3", "L4", "L5", "L6", "L7", "N0", "N1", "N2", "N3", "N4", "N5", "DL0", "DL1", "DL2",
-        "RL0", "RL1", "S0", "AL0", "AL2",
+        "RL0", "RL1", "S0", "AL0", "AL2", "OL0", "OL2",
     ];
     for n in NAMES {
         let id = with_storable!(n, T => std::any::TypeId::of::<T>(), continue);
@@ -232,9 +240,9 @@ pub fn type_name_of(ty: std::any::TypeId) -> Option<&'static str> {
 
 /// `"TypeId(0x..)"` (hook output) -> table name
 pub fn type_name_of_debug(dbg: &str) -> Option<&'static str> {
-    const NAMES: [&str; 22] = [
+    const NAMES: [&str; 24] = [
         "L0", "L1", "L2", "L3", "L4", "L5", "L6", "L7", "N0", "N1", "N2", "N3", "N4", "N5", "DL0", "DL1", "DL2",
-        "RL0", "RL1", "S0", "AL0", "AL2",
+        "RL0", "RL1", "S0", "AL0", "AL2", "OL0", "OL2",
     ];
     for n in NAMES {
         let id = with_storable!(n, T => std::any::TypeId::of::<T>(), continue);
